@@ -216,6 +216,19 @@ def discharge(prog, body, kind, bi, t, bounds):
         if 'Vec<' in full or 'slice' in full or '[T]' in full:
             recv = strip(body.op_term(t['args'][0], (bi, None)))
             idx = body.op_term(t['args'][1], (bi, None))
+            kc = util.const_val(idx)
+            if isinstance(kc, int):
+                # constant index below a length established on the dominating edge
+                for g, k, sw in body.guard_terms(bi):
+                    g = strip(g)
+                    n = None
+                    if isinstance(g, tuple) and g[0] == 'bin' and g[1] in ('Eq', 'Ne') and _is_len_of(g[2], recv) and isinstance(util.const_val(g[3]), int):
+                        if (g[1] == 'Eq' and k in (1, 'otherwise')) or (g[1] == 'Ne' and k == 0):
+                            n = util.const_val(g[3])
+                    elif _is_len_of(g, recv) and isinstance(k, int):
+                        n = k          # `match v.len() { n => .. }`
+                    if n is not None and kc < n:
+                        return 'constant index %d < length %d established on the dominating edge' % (kc, n)
             src = util.loop_source(idx)
             if src is not None:
                 r = util.range_of(src)
@@ -226,6 +239,11 @@ def discharge(prog, body, kind, bi, t, bounds):
                             return 'index is the loop variable of 0..v.len() over the same, non-shrinking vector'
         return None
     return None
+
+
+def _is_len_of(t, recv):
+    t = strip(t)
+    return isinstance(t, tuple) and t[0] == 'call' and cname(t[1]) in ('Vec::len', 'slice::len') and _same_vec(t[2], recv)
 
 
 def _same_vec(a, b):
